@@ -83,10 +83,10 @@ def main():
                 key = vlib.prop_key(q.name, p)
                 hit = None
                 for k in known:
-                    if k["key"] == key:
+                    if k.get("key") == key or (k.get("key_re") and re.search(k["key_re"], key)):
                         hit = k
                 if hit:
-                    known_hits.setdefault(hit["key"], hit)
+                    known_hits.setdefault(hit.get("key") or hit.get("key_re"), hit)
                 else:
                     violations.append((r, p, key))
         for k in known_hits.values():
